@@ -58,6 +58,28 @@ pub fn write_jmp_fn(addr: u64, dest: u64) {
     unsafe { std::ptr::copy_nonoverlapping(code.as_ptr(), addr as *mut u8, 6) };
 }
 
+/// Realistic first instructions of compiled functions (none of them changes eax or the stack
+/// balance): the patch must replace them, never run them on the way to the fake.
+pub const PROLOGUES: [&[u8]; 10] = [
+    &[],
+    &[0xF3, 0x0F, 0x1E, 0xFA],       // endbr64
+    &[0x0F, 0x1F, 0x44, 0x00, 0x00], // nopl 0(%rax,%rax)
+    &[0xF3, 0x0F, 0x10, 0xC1],       // movss xmm0, xmm1
+    &[0x0F, 0x14, 0xC1],             // unpcklps xmm0, xmm1
+    &[0x0F, 0x12, 0xC1],             // movhlps xmm0, xmm1
+    &[0x48, 0x89, 0xF7],             // mov rdi, rsi
+    &[0x66, 0x90],                   // xchg ax, ax
+    &[0x48, 0x8D, 0x36],             // lea rsi, [rsi]
+    &[0x4D, 0x31, 0xC9],             // xor r9, r9
+];
+
+/// `<prologue>; mov eax, id; ret`
+pub fn write_fn_with_prologue(addr: u64, id: u32, prologue: usize) {
+    let p = PROLOGUES[prologue % PROLOGUES.len()];
+    unsafe { std::ptr::copy_nonoverlapping(p.as_ptr(), addr as *mut u8, p.len()) };
+    write_const_fn(addr + p.len() as u64, id);
+}
+
 pub fn call_u32(addr: u64) -> u32 {
     let f: extern "C" fn() -> u32 = unsafe { std::mem::transmute(addr as usize) };
     std::hint::black_box(f)()
